@@ -139,7 +139,10 @@ func recordAPI(r *recorder, a *args) {
 				// Rating of every score, and of a few arbitrary numbers
 				if v.Rating != nil {
 					for _, sc := range v.Scores {
-						r.rating(g, ver, o.Score(sc))
+						var x float64
+						if p, _ := safely(func() { x = o.Score(sc) }); !p {
+							r.rating(g, ver, x)
+						}
 					}
 					r.rating(g, ver, float64(rng.Intn(1300)-100)/100)
 				}
